@@ -121,6 +121,7 @@ fn rt_run<F: Flavour>(sc: &RtSc, stats: &mut Stats) -> Option<Violation> {
 }
 
 fn rt_inner<F: Flavour>(sc: &RtSc, stats: &mut Stats) -> Option<Violation> {
+    crate::keys::set_style(crate::keys::style_from(sc.ser_hash));
     hashseam::set_seed(sc.ser_hash);
     let (nodes, g) = build::<F>(&sc.prios, &sc.edges, &sc.insert_order);
     let w = World::<F> { nodes, graph: None };
